@@ -2,18 +2,19 @@ CFG = dict(
     theorems=["C02.tumbling_no_early_fire", "C02.tumbling_drop_only_if_late", "C02.tumbling_dropped_row_inert",
               "C02.tumbling_late_update_contents", "C02.tumbling_late_update_only_if_allowed", "C02.future_never_moves_watermark",
               "C02.watermark_monotone", "C02.send_retry", "C02.facts_watermark", "C02.sliding_no_early_fire",
-              "C02.session_no_early_delivery", "C02.session_drop_only_if_late", "C02.session_late_update", "C02.sliding_late_update_contents", "C02.sliding_every_open_window_redelivered"],
-    unproved=["idle-timeout advance of the watermark (wall-clock dependent): modelled (tick idle) but no_early_fire is proved for histories without idle ticks"],
+              "C02.session_no_early_delivery", "C02.session_drop_only_if_late", "C02.session_late_update", "C02.sliding_late_update_contents", "C02.sliding_every_open_window_redelivered",
+              "C02.tumbling_no_early_fire_full", "C02.tumbling_no_early_fire_prefix", "C02.sliding_no_early_fire_full", "C02.session_no_early_delivery_full"],
+    unproved=[],
     rule="tumbling (ALLOWEDLATENESS in {0,1,size/2,size,3size,20size}), sliding (lateness in {0,1,slide,3size}) and session (lateness in {0,1,timeout,5timeout}) op sequences with late rows placed around "
          "MAXOUTOFORDERNESS and around window_end+ALLOWEDLATENESS, far-future and timestamp-less rows, lagging trigger (bursts of adds with undelivered watermarks), Adds in the unlock gap; distinct = distinct (cfg, op list)",
     assumptions=["'inside the allowance' is read per window: current watermark < window_end + ALLOWEDLATENESS (the literal 'older than watermark - ALLOWEDLATENESS' contradicts the re-delivery clause for rows early in a long window)",
-                 "no_early_fire: histories without idle-timeout ticks (IDLETIMEOUT advances the watermark from the wall clock)",
+                 "idle timeout: the model's tick carries the flag 'IDLETIMEOUT configured and elapsed' and the wall-clock reading; *_no_early_fire_full cover such ticks (the result is then backed by that reading minus MAXOUTOFORDERNESS); whether the flag is computed correctly from lastEventTime is tied by correspondence (idle ops of the harness) only",
                  "mutex mutual exclusion; deterministic drive of the real windows without their goroutines"],
 )
 META = dict(
-   text="Proof: on the tumbling, sliding and session models, for all configurations and op sequences: no result is delivered unless an ingested event that passed the far-future guard has timestamp >= window_end + MAXOUTOFORDERNESS; "
+   text="Proof: on the tumbling, sliding and session models, for all configurations and op sequences: in every history (idle ticks and far-future rows included) no result is delivered unless an ingested event that passed the far-future guard has timestamp >= window_end + MAXOUTOFORDERNESS or a tick at which the idle timeout had elapsed read a wall clock >= window_end + MAXOUTOFORDERNESS; "
         "a row is discarded only if late and a discarded row changes nothing but watermark bookkeeping; a late row inside a triggered window whose allowance has not expired by the current watermark is answered by exactly one re-delivery of the same interval = last delivered contents ++ [row] (tumbling: proved over reachable states incl. the link to the last delivery; session: step-level); "
         "far-future timestamps leave the watermark state untouched; the watermark is monotone and undelivered values are re-offered (Lean theorems). "
         "Tied to the three window implementations by replay of generated op sequences (incl. lagging trigger) and by the declarative oracle with late-update, allowance and must-redeliver clauses.",
-   note="Trusted: Lean kernel; models tied by correspondence; Go mutex semantics; harness. Idle-timeout ticks are outside no_early_fire (see unproved); sliding late updates are proved at step level (contents, every open covering window).",
+   note="Trusted: Lean kernel; models tied by correspondence; Go mutex semantics; harness. sliding late updates are proved at step level (contents, every open covering window).",
 )
